@@ -12,12 +12,14 @@ const carquet_schema_t *carquet_reader_schema(const carquet_reader_t *reader) { 
 int32_t carquet_reader_num_row_groups(const carquet_reader_t *reader) { return reader->metadata.num_row_groups; }
 bool carquet_column_has_next(const carquet_column_reader_t *reader) { return reader->values_remaining > 0; }
 int64_t carquet_column_remaining(const carquet_column_reader_t *reader) { return reader->values_remaining; }
+#ifndef CQV_OPEN_RG
 /* out of scope here (the row group is already open and column 0 has rows): paths that open a row group are cut */
 carquet_column_reader_t *carquet_reader_get_column(carquet_reader_t *reader, int32_t rg, int32_t col, carquet_error_t *error) {
   __CPROVER_assume(0);
   return NULL;
 }
 void carquet_column_reader_free(carquet_column_reader_t *reader) { __CPROVER_assume(0); }
+#endif
 #ifdef CQV_C19
 /* C19, narrowed: every malloc/calloc made by batch_reader.c itself goes through a wrapper that may fail
  * (nondeterministic choice per call); all other allocations (harness objects, arena stub, callee
